@@ -54,10 +54,11 @@ def _run_traced(fn, max_lines):
         sys.settrace(old)
 
 
-def run_budgeted(fn, cpu_s=DEFAULT_CPU_S, max_lines=DEFAULT_LINES):
+def run_budgeted(fn, cpu_s=DEFAULT_CPU_S, max_lines=DEFAULT_LINES, confirm=True):
     """Run fn() (which must be re-runnable from pristine inputs).
 
-    Returns ("ok", value), ("exc", exception) or ("diverged", lines_budget).
+    Returns ("ok", value), ("exc", exception) or ("diverged", lines_budget); with confirm=False the
+    alarm alone ends the run and ("timeout", cpu_s) is returned - callers must not draw a verdict from it.
     """
     try:
         _state["armed"] = True
@@ -68,7 +69,8 @@ def run_budgeted(fn, cpu_s=DEFAULT_CPU_S, max_lines=DEFAULT_LINES):
             _state["armed"] = False
             signal.setitimer(signal.ITIMER_VIRTUAL, 0)
     except Timeout:
-        pass
+        if not confirm:
+            return ("timeout", cpu_s)
     except Exception as e:                      # noqa: BLE001 - the outcome *is* the observation
         return ("exc", e)
     # stage 2: deterministic confirmation
